@@ -58,26 +58,32 @@ class Api:
         self.old = [k() for k in self.classes]      # "old" instances
         self.new = [k() for k in self.classes]      # distinct "new" instances (same-kind conversions are between instances)
 
+    def view(self, old, new):
+        """the same API on other system objects"""
+        import copy  # pylint: disable=import-outside-toplevel
+        v = copy.copy(self)
+        v.old, v.new = list(old), list(new)
+        return v
+
+    def fresh(self):
+        """the same API on system objects nobody has used yet"""
+        return self.view([k() for k in self.classes], [k() for k in self.classes])
+
     # -- helpers ---------------------------------------------------------------------------------------------
     def vec_atoms(self, expr):
         expr = sp.sympify(expr)
         return set(expr.atoms(self.VS)) | set(expr.find(lambda e: isinstance(e, self.AVF)))
 
-    def linear_coeffs(self, expr, system, E):
-        """replace the base vectors of `system` (applied at any point) by the symbols E; anything else vector-valued
-        is an error"""
+    def linear_coeffs(self, expr, system, E, point):
+        """replace the base vectors of `system` APPLIED AT `point` by the symbols E; any other vector-valued atom
+        (a base vector of another system, or of this system attached to another point) is an error"""
         expr = sp.sympify(expr)
-        bvs = system.args[1]
-        rep = {}
-        for at in self.vec_atoms(expr):
-            idx = None
-            for j, bv in enumerate(bvs):
-                if (isinstance(at, self.AVF) and at.func == bv) or at == bv:
-                    idx = j
-            if idx is None:
-                raise sx.Unsupported(f"vector atom {at} is not a base vector of the new system")
-            rep[at] = E[idx]
-        return expr.xreplace(rep)
+        rep = dict(zip(system.base_vectors(point), E))
+        out = expr.xreplace(rep)
+        stray = self.vec_atoms(out)
+        if stray:
+            raise sx.Unsupported(f"vector atoms {sorted(map(str, stray))} are not base vectors of the new system at {point}")
+        return out
 
     # -- legs ---------------------------------------------------------------------------------------------------
     def scal(self, a, b, q):
@@ -99,7 +105,7 @@ class Api:
         if list(m.keys()) != list(olds):
             raise AssertionError("keys are not the old base vectors in order")
         rep = dict(zip(B.base_scalars, map(sp.sympify, q)))
-        return [self.linear_coeffs(m[o], B, E).xreplace(rep) for o in olds]
+        return [self.linear_coeffs(m[o], B, E, pb).xreplace(rep) for o in olds]
 
     def cpoint(self, a, b, p):
         A, B = self.old[a], self.new[b]
@@ -114,7 +120,7 @@ class Api:
         e = A.base_vectors(pa)
         vec = sp.sympify(c[0]) * e[0] + sp.sympify(c[1]) * e[1] + sp.sympify(c[2]) * e[2]
         out = self.cs.convert_vector(vec, pa, B)
-        return self.linear_coeffs(out, B, E)
+        return self.linear_coeffs(out, B, E, self.cs.convert_point(pa, B))
 
     def lame(self, a, q):
         A = self.old[a]
@@ -191,7 +197,34 @@ def flat(m):
     return [x for r in m for x in r]
 
 
-def spec_checks(api: Api):
+class FreshProxy:
+    """delegates to an Api on system objects that are renewed before every predicate evaluation, so that a
+    specification predicate never depends on what was converted before (histories are the business of `history_stream`)"""
+
+    def __init__(self, base):
+        self._base = base
+        self._cur = base.fresh()
+
+    def renew(self):
+        self._cur = self._base.fresh()
+
+    def __getattr__(self, name):
+        return getattr(self._cur, name)
+
+
+def spec_checks(base_api: Api):
+    api = FreshProxy(base_api)
+    checks = _spec_checks(api)
+
+    def wrap(pred):
+        def w(inp):
+            api.renew()
+            return pred(inp)
+        return w
+    return {k: (g, wrap(p)) for k, (g, p) in checks.items()}
+
+
+def _spec_checks(api):
     checks = {}
     E = sp.symbols("E0:3")
 
@@ -402,6 +435,124 @@ def build(api: Api, gen: Gen):
                 f"scalars: {nc} -> {na} directly equals via {nb} (implementation's tables)")
 
 
+
+# ---------------------------------------------------------------------------------------------------------
+# history stream: conversions that REUSE the same system objects at different points
+# ---------------------------------------------------------------------------------------------------------
+
+def hist_step(api: Api, pools, st, fresh=False):
+    """run one step on the shared system objects of `pools` (pools[kind][instance]) or on fresh ones; the result is a
+    list of floats (coefficients are taken w.r.t. the new system's base vectors AT THE CONVERTED POINT, anything else
+    is an error) or ('exception', text)"""
+    E = sp.symbols("E0:3")
+    a, b = st["a"], st["b"]
+    if fresh:
+        v = api.fresh()
+    else:
+        old = [pl[0] for pl in pools]
+        new = [pl[1] for pl in pools]
+        old[a] = pools[a][st["ia"]]
+        new[b] = pools[b][st["ib"]]
+        v = api.view(old, new)
+    unit = lambda k: {E[j]: 1 if j == k else 0 for j in range(3)}
+    try:
+        if st["op"] == "cpoint":
+            return [num(e) for e in v.cpoint(a, b, fl(st["coords"]))]
+        if st["op"] == "cvec":
+            out = v.cvec(a, b, fl(st["components"]), fl(st["coords"]), E)
+            return [num(out.xreplace(unit(k))) for k in range(3)]
+        if st["op"] == "scal":
+            return [num(e) for e in v.scal(a, b, fl(st["coords"]))]
+        rows = v.bvec(a, b, fl(st["coords"]), E)
+        return [num(r.xreplace(unit(k))) for r in rows for k in range(3)]
+    except Exception as e:  # pylint: disable=broad-except
+        return ("exception", f"{type(e).__name__}: {str(e)[:300]}")
+
+
+def hist_run(api: Api, seq):
+    pools = [[k(), k()] for k in api.classes]
+    return [hist_step(api, pools, st) for st in seq]
+
+
+def hist_same(x, y):
+    if isinstance(x, tuple) or isinstance(y, tuple):
+        return False
+    return close(x, y)
+
+
+def hist_first_bad(api: Api, seq):
+    """index of the first step whose result on reused objects differs from the same call on fresh objects"""
+    got = hist_run(api, seq)
+    for i, st in enumerate(seq):
+        ref = hist_step(api, None, st, fresh=True)
+        if not hist_same(got[i], ref):
+            return i, got[i], ref
+    return None
+
+
+def hist_gen(rng, template=None):
+    def step(op, a, ia, b, ib):
+        if a == b and ia == ib:
+            ib = 1 - ib
+        src = a if op in ("cvec", "cpoint") else b      # scal / bvec are functions of the NEW system's scalars
+        return {"op": op, "a": a, "ia": ia, "b": b, "ib": ib, "coords": gen_regular(rng, src),
+                "components": [away(rng), away(rng), away(rng)]}
+    if template is not None:
+        a, b = template
+        return [step("cvec", a, 0, b, 1), step("cpoint", a, 0, b, 1), step("cvec", a, 0, b, 1), step("cvec", b, 1, a, 0),
+                step("bvec", a, 0, b, 1), step("cvec", b, 1, a, 0)]
+    pairs = [(rng.randrange(3), rng.randrange(2), rng.randrange(3), rng.randrange(2)) for _ in range(rng.randint(1, 2))]
+    seq = []
+    for _ in range(rng.randint(3, 6)):
+        a, ia, b, ib = rng.choice(pairs)
+        if rng.random() < 0.4:
+            a, ia, b, ib = b, ib, a, ia
+        seq.append(step(rng.choice(["cvec", "cvec", "cpoint", "scal", "bvec"]), a, ia, b, ib))
+    return seq
+
+
+def hist_describe(st):
+    tail = f" c={st['components']}" if st["op"] == "cvec" else ""
+    names = {"cpoint": "convert_point", "cvec": "convert_vector", "scal": "express_base_scalars", "bvec": "express_base_vectors"}
+    return f"{names[st['op']]}({LOW[st['a']]}#{st['ia']} -> {LOW[st['b']]}#{st['ib']}) at {st['coords']}{tail}"
+
+
+def history_stream(ctx, api: Api):
+    rng = ctx.rng
+    seqs = [hist_gen(rng, t) for t in NONTRIVIAL] + [hist_gen(rng) for _ in range(ctx.pick(10, 80))]
+    steps = 0
+    reported = set()
+    for seq in seqs:
+        steps += len(seq)
+        bad = hist_first_bad(api, seq)
+        if bad is None:
+            continue
+        i = bad[0]
+        cur = seq[:i + 1]
+        # shrink: drop earlier steps while the last one still differs from its fresh-state result
+        j = len(cur) - 2
+        while j >= 0:
+            cand = cur[:j] + cur[j + 1:]
+            b2 = hist_first_bad(api, cand)
+            if b2 is not None and b2[0] == len(cand) - 1:
+                cur = cand
+            j -= 1
+        b3 = hist_first_bad(api, cur)
+        got, ref = (b3[1], b3[2]) if b3 else (bad[1], bad[2])
+        last = cur[-1]
+        key = f"C15:history:{last['op']}_{LOW[last['a']]}_{LOW[last['b']]}"
+        if key in reported:
+            continue
+        reported.add(key)
+        ctx.violation(key, "result depends on earlier conversions with the same system objects: after "
+            + "; ".join(hist_describe(x) for x in cur[:-1]) + f" the call {hist_describe(last)} returns {got}, "
+            f"but {ref} when made first on fresh system objects",
+            {"kind": "history", "sequence": cur, "observed_last": got, "expected_last": ref,
+             "theorem_or_tie": "history independence of the conversions (same call on fresh system objects)"}, found_input=True)
+    if seqs:
+        ctx.sample({"history_sequence": [hist_describe(x) for x in seqs[len(NONTRIVIAL)]]})
+    return len(seqs), steps
+
 # ---------------------------------------------------------------------------------------------------------
 # dispatch table
 # ---------------------------------------------------------------------------------------------------------
@@ -568,12 +719,13 @@ def run(ctx):
             n_obl += 2
             seen.add(("obl", a, b, tuple(p), tuple(c), mode))
             key = f"{LOW[a]}_{LOW[b]}"
+            fapi = api.fresh()
             try:
                 syms = sp.symbols("a0:9")
                 lg = gen.legs.get(f"cpoint_{key}")
                 if lg:
                     want = [num(e.xreplace(dict(zip(syms[:3], fl(p))))) for e in lg["exprs"]]
-                    got = [num(e) for e in api.cpoint(a, b, dr(p))]
+                    got = [num(e) for e in fapi.cpoint(a, b, dr(p))]
                     if not close(got, want):
                         ctx.violation(f"C15:oblivious:cpoint_{key}", f"convert_point {key} on numbers {p} ({mode}) gives {got}, generic output evaluates to {want}",
                             {"kind": "disagreement", "theorem_or_tie": f"value-obliviousness of convert_point {key}", "input": p, "observed": got, "expected": want},
@@ -582,7 +734,7 @@ def run(ctx):
                 if lg:
                     rep = dict(zip(syms[:9], fl(c) + fl(p) + list(E)))
                     wexpr = lg["exprs"][0].xreplace(rep)
-                    gexpr = api.cvec(a, b, dr(c), dr(p), E)
+                    gexpr = fapi.cvec(a, b, dr(c), dr(p), E)
                     want = [num(wexpr.xreplace({E[j]: 1 if j == k else 0 for j in range(3)})) for k in range(3)]
                     got = [num(gexpr.xreplace({E[j]: 1 if j == k else 0 for j in range(3)})) for k in range(3)]
                     if not close(got, want):
@@ -592,6 +744,11 @@ def run(ctx):
             except Exception as e:  # pylint: disable=broad-except
                 ctx.violation(f"C15:oblivious:{key}:exception", f"concrete run of convert_point/convert_vector {key} at p={p} c={c} ({mode}) raised {type(e).__name__}: {e}",
                     {"kind": "disagreement", "theorem_or_tie": f"value-obliviousness {key}", "input": {"c": c, "p": p, "dress": mode}}, found_input=False)
+
+    # history stream: the same system objects reused at different points
+    n_hist, hist_steps = history_stream(ctx, api)
+    n_eval += hist_steps
+    ctx.coverage["history_sequences"] = n_hist
 
     # dispatch table
     rows = dispatch_rows(api)
@@ -650,6 +807,9 @@ def run(ctx):
         "convert_vector}, 6 triples via-third (scalars and matrices), Lame per system) at seeded regular points: |Cartesian coordinates| in "
         "[0.2,3], radii in [0.2,3], polar angle in [0.15,2.9], azimuth in [-3,3], vector components non-zero; plus concrete-number runs of "
         "convert_point/convert_vector for all 9 pairs compared with the generic output; plus all 72 dispatch rows and 3 same-instance rows. "
+        "history stream: 6 fixed-shape + seeded random sequences of 3-6 calls (convert_point / convert_vector / express_base_scalars / "
+        "express_base_vectors, both directions, at most two pairs of system objects per sequence so that objects are reused at different "
+        "points), each result compared with the same call on fresh system objects; "
         "distinct = distinct (check, input); every input is non-trivial (off the singular sets, no zero component)")
     ctx.coverage["spec_checks"] = sorted(checks)
     ctx.coverage["spec_points_per_check"] = n_pts
@@ -657,6 +817,19 @@ def run(ctx):
 
 def replay(ctx, rep):
     api = Api()
+    if rep.get("kind") == "history":
+        seq = rep["sequence"]
+        got = hist_run(api, seq)
+        bad = False
+        for st, g in zip(seq, got):
+            ref = hist_step(api, None, st, fresh=True)
+            same = hist_same(g, ref)
+            bad = bad or not same
+            print(hist_describe(st))
+            print("   on the reused system objects :", g)
+            print("   on fresh system objects      :", ref, "" if same else "   <-- DIFFERS")
+        print("->", "FAILS (history dependent)" if bad else "holds")
+        return 1 if bad else 0
     if rep.get("check"):
         name = rep["check"]
         _g, pred = spec_checks(api)[name]
